@@ -1,6 +1,19 @@
 """Runs the real integration code on generated cases.
 kinds: 'kernel' (C kernels through ctypes, unequal dims allowed), 'wrap' (int_c Cython wrappers, cubic),
-       'precalc' (C precalc kernels via ctypes), 'tridiag', 'driver' (one_pop..five_pops)."""
+       'precalc' (C precalc kernels via ctypes), 'tridiag', 'driver' (one_pop..five_pops).
+
+The cases of one payload are executed IN THE ORDER GIVEN inside this one process (the order is part of the case
+description: a kernel or driver that keeps any state between calls - static buffers, coefficients cached by size, by
+pointer, by parameter value - answers a later case of the sequence differently from a fresh process).  One JSON line is
+written (and flushed) per finished case, so that a crash of the interpreter inside a call identifies the call.
+
+Optional case keys:
+  'reuse': True     the argument arrays (phi, grids, a/b/c, r) live in buffers that persist between the calls of this
+                    process (one per role and shape): consecutive calls on the same shape hand the SAME pointers with
+                    different contents to the kernel
+  'layout': {'phi': 'F' | 'T' | 'neg' | 'step', 'grid': 'neg' | 'step'}   (drivers) memory layout of the arguments: the
+                    logical content is that of the case, the array object is Fortran-ordered / a transposed view /
+                    a negatively strided view / an every-other-element view of a larger buffer."""
 import sys, os, json, ctypes, warnings
 warnings.filterwarnings('ignore')
 import numpy as np
@@ -13,14 +26,29 @@ import dadi.tridiag_cython as tridiag_cython
 LIB = ctypes.CDLL(os.path.join(os.environ['DADI_OVERLAY'], 'libdadi_kernels.so'))
 D = ctypes.c_double; I = ctypes.c_int; P = ctypes.POINTER(ctypes.c_double)
 AX = 'xyzab'
+POOL = {}
 
 def ptr(a):
     return a.ctypes.data_as(P)
 
+def arr(c, role, values, shape=None):
+    """a fresh C-contiguous float array with the given content, or (case key 'reuse') the persistent buffer of that role
+    and shape overwritten with the content"""
+    a = np.array(values, dtype=float)
+    if shape is not None:
+        a = a.reshape(shape)
+    if not c.get('reuse'):
+        return a.copy()
+    key = (role, a.shape)
+    if key not in POOL:
+        POOL[key] = np.empty(a.shape, dtype=float)
+    POOL[key][...] = a
+    return POOL[key]
+
 def kernel(c):
     d = len(c['shape']); k = c['k']
-    phi = np.array(c['phi'], dtype=float).reshape(c['shape']).copy()
-    grids = [np.array(g, dtype=float) for g in c['grids']]
+    phi = arr(c, 'phi', c['phi'], c['shape'])
+    grids = [arr(c, 'grid%d' % j, g) for j, g in enumerate(c['grids'])]
     name = 'implicit_%dD%s' % (d, AX[k])
     f = getattr(LIB, name)
     args = [ptr(phi)] + [ptr(g) for g in grids] + [D(c['nu'])] + [D(m) for m in c['ms']] + [D(c['gamma']), D(c['h'])]
@@ -39,8 +67,8 @@ def kernel(c):
 
 def wrap(c):
     d = len(c['shape']); k = c['k']
-    phi = np.array(c['phi'], dtype=float).reshape(c['shape']).copy()
-    grids = [np.array(g, dtype=float) for g in c['grids']]
+    phi = arr(c, 'phi', c['phi'], c['shape'])
+    grids = [arr(c, 'grid%d' % j, g) for j, g in enumerate(c['grids'])]
     f = getattr(int_c, 'implicit_%dD%s' % (d, AX[k]))
     args = [phi] + grids + [c['nu']] + list(c['ms']) + [c['gamma'], c['h']]
     if d == 1:
@@ -51,10 +79,10 @@ def wrap(c):
 
 def precalc(c):
     d = len(c['shape']); k = c['k']
-    phi = np.array(c['phi'], dtype=float).reshape(c['shape']).copy()
-    a = np.array(c['a'], dtype=float).reshape(c['shape']).copy()
-    b = np.array(c['b'], dtype=float).reshape(c['shape']).copy()
-    cc = np.array(c['c'], dtype=float).reshape(c['shape']).copy()
+    phi = arr(c, 'phi', c['phi'], c['shape'])
+    a = arr(c, 'a', c['a'], c['shape'])
+    b = arr(c, 'b', c['b'], c['shape'])
+    cc = arr(c, 'c', c['c'], c['shape'])
     if c.get('via') == 'wrap':
         f = getattr(int_c, 'implicit_precalc_%dD%s' % (d, AX[k]))
         res = f(phi, a, b, cc, c['dt'])
@@ -67,7 +95,7 @@ def precalc(c):
     return [float(t) for t in phi.ravel()]
 
 def tridiag(c):
-    a, b, cc, r = [np.array(c[x], dtype=float) for x in 'abcr']
+    a, b, cc, r = [arr(c, 't' + x, c[x]) for x in 'abcr']
     if c.get('via') == 'wrap':
         return [float(t) for t in tridiag_cython.tridiag(a, b, cc, r)]
     u = np.zeros(len(a))
@@ -75,12 +103,52 @@ def tridiag(c):
     LIB.tridiag(ptr(a), ptr(b), ptr(cc), ptr(r), ptr(u), I(len(a)))
     return [float(t) for t in u]
 
-def mkfun(base, slope):
-    if slope is None:
-        return base
-    if slope == 0:
-        return lambda t: base
-    return lambda t: base + slope * t
+def lay_phi(phi, how):
+    """an array object with the logical content of phi and the requested memory layout"""
+    d = phi.ndim
+    if how is None:
+        return phi
+    if how == 'F':
+        out = np.asfortranarray(phi) if d >= 2 else phi
+        if d >= 2:
+            assert out.flags['F_CONTIGUOUS'] and not out.flags['C_CONTIGUOUS']
+    elif how == 'T':
+        # a view with the first and the last axis swapped of a C-contiguous array holding the swapped content
+        base = np.ascontiguousarray(np.swapaxes(phi, 0, d - 1))
+        out = np.swapaxes(base, 0, d - 1)
+        assert d < 2 or not out.flags['C_CONTIGUOUS']
+    elif how == 'neg':
+        # negatively strided along the first axis
+        base = np.ascontiguousarray(phi[::-1])
+        out = base[::-1]
+        assert out.strides[0] < 0
+    elif how == 'step':
+        # every other element along the last axis of a larger buffer (the gaps hold a sentinel)
+        shp = list(phi.shape); shp[-1] = 2 * shp[-1]
+        base = np.full(shp, -777.25)
+        base[..., ::2] = phi
+        out = base[..., ::2]
+        assert not out.flags['C_CONTIGUOUS'] or out.shape[-1] == 1
+    else:
+        raise ValueError('layout ' + repr(how))
+    assert out.shape == phi.shape and np.array_equal(out, phi)
+    return out
+
+def lay_grid(xx, how):
+    if how is None:
+        return xx
+    if how == 'neg':
+        base = np.ascontiguousarray(xx[::-1])
+        out = base[::-1]
+        assert out.strides[0] < 0
+    elif how == 'step':
+        base = np.full(2 * len(xx), -777.25)
+        base[::2] = xx
+        out = base[::2]
+    else:
+        raise ValueError('grid layout ' + repr(how))
+    assert np.array_equal(out, xx)
+    return out
 
 def driver(c):
     d = len(c['shape'])
@@ -88,6 +156,9 @@ def driver(c):
     Integration.use_delj_trick = bool(c['delj'])
     xx = np.array(c['grid'], dtype=float)
     phi = np.array(c['phi'], dtype=float).reshape(c['shape']).copy()
+    lay = c.get('layout') or {}
+    phi = lay_phi(phi, lay.get('phi'))
+    xx = lay_grid(xx, lay.get('grid'))
     pops = c['pops']
     fn = c['as_func']          # None: constants; 'const': functions returning the constant; 'lin': nu(t)=nu+s*t
     def par(v, s=0.0):
@@ -98,42 +169,49 @@ def driver(c):
         return (lambda t, v=v, s=s: v + s * t)
     kw = {}
     names = '12345'
-    if d == 1:
-        p = pops[0]
-        kw = dict(nu=par(p['nu'], p.get('nu_slope', 0.0)), gamma=par(p['gamma']), h=par(p['h']), theta0=par(c['theta0'], c.get('theta_slope', 0.0)), beta=par(p['beta']))
-        if p.get('frozen'):
-            kw['frozen'] = True
-        res = Integration.one_pop(phi, xx, c['T'], **kw)
-    else:
-        for i, p in enumerate(pops):
-            kw['nu' + names[i]] = par(p['nu'], p.get('nu_slope', 0.0))
-            kw['gamma' + names[i]] = par(p['gamma'])
-            kw['h' + names[i]] = par(p['h'])
+    try:
+        if d == 1:
+            p = pops[0]
+            kw = dict(nu=par(p['nu'], p.get('nu_slope', 0.0)), gamma=par(p['gamma']), h=par(p['h']), theta0=par(c['theta0'], c.get('theta_slope', 0.0)), beta=par(p['beta']))
             if p.get('frozen'):
-                kw['frozen' + names[i]] = True
-            if p.get('nomut') and d == 2:
-                kw['nomut' + names[i]] = True
-            others = [j for j in range(d) if j != i]
-            for j, m in zip(others, p['ms']):
-                # a zero rate stays a plain constant: the frozen-population guard tests `m != 0` on the argument itself
-                kw['m' + names[i] + names[j]] = par(m) if m != 0 else 0
-        kw['theta0'] = par(c['theta0'], c.get('theta_slope', 0.0))
-        f = [None, None, Integration.two_pops, Integration.three_pops, Integration.four_pops, Integration.five_pops][d]
-        res = f(phi, xx, c['T'], **kw)
-    Integration.timescale_factor = 1e-3
-    Integration.use_delj_trick = False
+                kw['frozen'] = True
+            res = Integration.one_pop(phi, xx, c['T'], **kw)
+        else:
+            for i, p in enumerate(pops):
+                kw['nu' + names[i]] = par(p['nu'], p.get('nu_slope', 0.0))
+                kw['gamma' + names[i]] = par(p['gamma'])
+                kw['h' + names[i]] = par(p['h'])
+                if p.get('frozen'):
+                    kw['frozen' + names[i]] = True
+                if p.get('nomut') and d == 2:
+                    kw['nomut' + names[i]] = True
+                others = [j for j in range(d) if j != i]
+                for j, m in zip(others, p['ms']):
+                    # a zero rate stays a plain constant: the frozen-population guard tests `m != 0` on the argument itself
+                    kw['m' + names[i] + names[j]] = par(m) if m != 0 else 0
+            kw['theta0'] = par(c['theta0'], c.get('theta_slope', 0.0))
+            f = [None, None, Integration.two_pops, Integration.three_pops, Integration.four_pops, Integration.five_pops][d]
+            res = f(phi, xx, c['T'], **kw)
+    finally:
+        Integration.timescale_factor = 1e-3
+        Integration.use_delj_trick = False
     return [float(t) for t in np.asarray(res).ravel()]
 
 def main():
     cases = json.load(sys.stdin)
     out = []
-    for c in cases:
-        rec = {'id': c['id']}
+    stream = '--stream' in sys.argv
+    for seq, c in enumerate(cases):
+        rec = {'id': c['id'], 'seq': seq}
         try:
             rec['res'] = {'kernel': kernel, 'wrap': wrap, 'precalc': precalc, 'tridiag': tridiag, 'driver': driver}[c['kind']](c)
         except Exception as e:
             rec['error'] = type(e).__name__ + ': ' + str(e)[:300]
-        out.append(rec)
-    print(json.dumps(out))
+        if stream:
+            sys.stdout.write('R ' + json.dumps(rec) + '\n'); sys.stdout.flush()
+        else:
+            out.append(rec)
+    if not stream:
+        print(json.dumps(out))
 if __name__ == '__main__':
     main()
